@@ -25,7 +25,7 @@ import (
 )
 
 type c04case struct {
-	Target string // onStartup Synchronization Event Schedule Combined
+	Target string // onStartup Synchronization Event Schedule Combined Combined3 (tick, event, tick: three tasks in one run)
 	K      int
 	Fail   string // exit bad-metrics bad-patch unappliable-patch
 	AFk    bool   // allowFailure of the kubernetes binding kb
@@ -124,7 +124,7 @@ func hasTarget(run *fxRun, target string) bool {
 			if b == "kb" && ty == "Event" {
 				return true
 			}
-		case "Schedule", "Combined":
+		case "Schedule", "Combined", "Combined3":
 			if b == "s1" {
 				return true
 			}
@@ -227,11 +227,17 @@ func c04body(c c04case, obs *c04obs) func(x *vrt.Exec) {
 				}
 				return false
 			})
-			if c.Target == "Schedule" || c.Target == "Combined" {
+			if c.Target == "Schedule" || c.Target == "Combined" || c.Target == "Combined3" {
 				schedulemanager.ZZRunJobs(fx.op.ScheduleManager)
 			}
-			if c.Target == "Event" || c.Target == "Combined" {
+			if c.Target == "Event" || c.Target == "Combined" || c.Target == "Combined3" {
 				mutate("n1", 1)
+			}
+			if c.Target == "Combined3" {
+				// a second tick behind the event: the binding that does not allow failure may sit in the
+				// middle of the combined run
+				vrt.WaitFor("event-queued", 10*time.Minute, func() bool { return !hub.Pending() && hub.Busy == 0 })
+				schedulemanager.ZZRunJobs(fx.op.ScheduleManager)
 			}
 			mutate("n2", 2) // the later task of the queue
 			if c.K > 0 {
@@ -377,7 +383,7 @@ func TestVerifC04(t *testing.T) {
 	bound := vres.Pick(0, 1)
 	r.Bound("deviation_bound", bound)
 	var cases []c04case
-	for _, target := range []string{"onStartup", "Synchronization", "Event", "Schedule", "Combined"} {
+	for _, target := range []string{"onStartup", "Synchronization", "Event", "Schedule", "Combined", "Combined3"} {
 		for k := 0; k <= 3; k++ {
 			for _, f := range []string{"exit", "bad-metrics", "bad-patch", "unappliable-patch", "bad-admission-response", "bad-conversion-response"} {
 				if k == 0 && f != "exit" {
